@@ -673,12 +673,16 @@ impl Storage {
     }
 
     pub fn filter_block(&self, block: Block) {
+        let block_number: BlockNumber = block.header().raw().number().unpack();
+        // Skip the scripts whose block number is greater than this block: the block filters
+        // between this block and that block number are never checked with such a script, so the
+        // later activities (e.g. be spent) of a cell which is recorded here would never be seen.
         let scripts: HashSet<(Script, ScriptType)> = self
             .get_filter_scripts()
             .into_iter()
+            .filter(|ss| ss.block_number <= block_number)
             .map(|ss| (ss.script, ss.script_type))
             .collect();
-        let block_number: BlockNumber = block.header().raw().number().unpack();
         let mut filter_matched = false;
         let mut batch = self.batch();
         let mut txs: HashMap<Byte32, (u32, Transaction)> = HashMap::new();
